@@ -99,6 +99,8 @@ def concLine (st : ConcRun) (lineNo : Nat) (line : String) : Except String (Conc
               | .getCond _ v, .value _ k => v != 0 && k == v
               | _, _ => false)
          then [s!"PROPFAIL C09 cond_never_returns_held_version {tag} calls={get "calls"}"] else []) ++
+        (if (get "unsynced").toNat?.getD 0 == 0 then [] else
+          [s!"PROPFAIL C06 synced_before_return {tag} unsynced={get "unsynced"} (a call returned before a Sync that began after its record was written had completed)"]) ++
         (if final.isNone then [s!"PROPFAIL C14 final_state_readable {tag} final={get "final"}"] else []) ++
         (if auditOK then [] else [s!"PROPFAIL C06 concurrent_records_whole {tag} audit={get "audit"}", s!"PROPFAIL C14 concurrent_records_whole {tag} audit={get "audit"}"])
       let nthreads := (calls.map (·.thread)).foldl max 0 + 1
